@@ -83,9 +83,10 @@ type OrLabelMatcher struct {
 
 // Process implements Processor.
 func (m *OrLabelMatcher) Process(ts otelstorage.Timestamp, line string, set LabelSet) (_ string, keep bool) {
-	line, keep = m.Left.Process(ts, line, set)
-	if keep {
-		return line, keep
+	// Do not pass the line returned by a rejecting left side to the right side:
+	// some filters return an empty line when they drop the record.
+	if newLine, keep := m.Left.Process(ts, line, set); keep {
+		return newLine, keep
 	}
 	return m.Right.Process(ts, line, set)
 }
